@@ -287,11 +287,14 @@ func (c *Ctx) c19Restore() {
 	}
 	fk := c.P.FuncKey(f)
 	o := c.P.OriginsOf(f)
-	// derivation calls
+	// derivation calls (in Restore itself or in a helper that is new on this tree, read in its calling context)
 	var gen ssa.CallInstruction
-	for _, ci := range Calls(f) {
-		if c.P.Describe(ci).Name == "wallet.generateDeterministicSecret" {
-			gen = ci
+	var gctx *Origins
+	for _, og := range c.OpContexts(f) {
+		for _, ci := range Calls(og.Fn) {
+			if c.P.Describe(ci).Name == "wallet.generateDeterministicSecret" {
+				gen, gctx = ci, og
+			}
 		}
 	}
 	if gen == nil {
@@ -299,26 +302,56 @@ func (c *Ctx) c19Restore() {
 		return
 	}
 	gd := c.P.Describe(gen)
-	path, ctr := o.Of(gd.Args[0]), o.Of(gd.Args[1])
-	// counter: increments by one per derived output, starting at 0 for the keyset
+	path, ctr := gctx.Of(gd.Args[0]), gctx.Of(gd.Args[1])
+	// counter: increments by one per derived output, starting at 0 for the keyset. Two shapes:
+	//  (A) one running counter: acc(+; 0; 1 ...)
+	//  (B) batch start + index: the start is a running counter advanced by exactly the batch size N per batch,
+	//      the index runs over 0..N-1 in the loop that derives the batch
 	okCtr := true
-	var walk func(e *Ex)
-	walk = func(e *Ex) {
+	var walk func(e *Ex, step string)
+	walk = func(e *Ex, step string) {
 		if e.K == "acc" && e.S == "+" {
 			for _, s := range e.Args[1:] {
-				if !isConst(s, "1") {
+				if !isConst(s, step) {
 					okCtr = false
 				}
 			}
-			walk(e.Args[0])
+			walk(e.Args[0], step)
 			return
 		}
 		if !isConst(e, "0") {
 			okCtr = false
 		}
 	}
-	walk(ctr)
-	R.Check("R2", fk, "counters are consecutive from 0 per keyset", c.P.InstrPos(gen), okCtr && ctr.K == "acc", "the counter handed to the derivation starts at 0 for each keyset and grows by exactly one per derived output (no gaps, no repeats)", "counter is "+short(ctr.String(), 120))
+	nextStart := ctr.String() // the counter value from which the next batch starts
+	switch {
+	case ctr.K == "acc":
+		walk(ctr, "1")
+	case ctr.K == "bin" && ctr.S == "+":
+		start, idx := ctr.Args[0], ctr.Args[1]
+		for idx.K == "conv" {
+			idx = idx.Args[0]
+		}
+		// bound of the deriving loop
+		n := ""
+		if l := gctx.Loops.InnermostContaining(gen.Block()); l != nil {
+			if ifi, ok := l.Header.Instrs[len(l.Header.Instrs)-1].(*ssa.If); ok {
+				if ft := gctx.condFact(ifi.Cond, true); ft != nil && ft.Kind == "cmp" && ft.Op.String() == "<" && ft.B.K == "const" && ft.A.String() == idx.String() {
+					n = ft.B.S
+				}
+			}
+		}
+		okIdx := idx.K == "acc" && strings.HasPrefix(idx.S, "+") && len(idx.Args) == 2 && isConst(idx.Args[0], "0") && isConst(idx.Args[1], "1")
+		if n == "" || !okIdx || start.K != "acc" {
+			okCtr = false
+		} else {
+			walk(start, n)
+			nextStart = "(" + start.String() + " + #" + n + ")"
+		}
+	default:
+		okCtr = false
+	}
+	R.Check("R2", fk, "counters are consecutive from 0 per keyset", c.P.InstrPos(gen), okCtr, "the counter handed to the derivation starts at 0 for each keyset and grows by exactly one per derived output (no gaps, no repeats)", "counter is "+short(ctr.String(), 120))
 	okPath := isCall(path, "cashu/nuts/nut13.DeriveKeysetPath") && path.Idx == 0 && strings.HasSuffix(arg(path, 1).String(), ".Id") && strings.Contains(arg(path, 1).String(), "GetAllKeysets#0(")
 	R.Check("R3", fk, "derivation under the keyset's own path", c.P.InstrPos(gen), okPath, "secret and r are derived under the path of the keyset being restored", short(path.String(), 160))
 	// the proof is rebuilt with the r of the matched B_
@@ -447,7 +480,7 @@ func (c *Ctx) c19Restore() {
 	// the amount added is the delta (C - S) with S in {0, C}; the keyset is the one being restored
 	d := c.P.Describe(incr)
 	k, amt := o.Of(d.Args[0]), o.Of(d.Args[1])
-	okDelta := amt.K == "bin" && amt.S == "-" && amt.Args[0].String() == ctr.String()
+	okDelta := amt.K == "bin" && amt.S == "-" && amt.Args[0].String() == nextStart
 	why := "amount is " + short(amt.String(), 160)
 	if okDelta {
 		s := amt.Args[1]
@@ -455,7 +488,7 @@ func (c *Ctx) c19Restore() {
 			s = s.Args[0]
 		}
 		for _, a := range s.Alts() {
-			if !(isConst(a, "0") || a.String() == ctr.String()) {
+			if !(isConst(a, "0") || a.String() == nextStart) {
 				okDelta = false
 				why = "the subtracted 'already saved' value can be " + short(a.String(), 100) + " (it must restart at 0 for each keyset and otherwise equal the counter at the last advance)"
 			}
